@@ -57,6 +57,8 @@ pub struct Program {
     pub features: Vec<&'static str>,
     /// identifiers that are declared several times (overload sets) or are templates: their emitted names get suffixes by design
     pub multi: Vec<usize>,
+    /// for global-scope-like entities declared inside a namespace: the identifier of the (innermost) namespace
+    pub ns_of: Vec<Option<usize>>,
 }
 
 impl Program {
@@ -118,6 +120,14 @@ struct Var {
     id: usize,
     ty: Ty,
     writable: bool,
+    /// qualification needed where the variable is used (globals declared inside a namespace, seen from outside)
+    prefix: String,
+}
+
+impl Var {
+    fn path(&self) -> String {
+        format!("{}{}", self.prefix, ph(self.id))
+    }
 }
 
 #[derive(Clone, Debug)]
@@ -153,6 +163,8 @@ pub struct Gen<'r> {
     structs: Vec<StructInfo>,
     enums: Vec<EnumInfo>,
     globals: Vec<Var>,
+    /// (identifier, namespace identifier) for entities declared inside namespaces
+    ns_marks: Vec<(usize, usize)>,
     funcs: Vec<FuncInfo>,
     /// scopes of local variables
     scopes: Vec<Vec<Var>>,
@@ -194,6 +206,7 @@ impl<'r> Gen<'r> {
             structs: Vec::new(),
             enums: Vec::new(),
             globals: Vec::new(),
+            ns_marks: Vec::new(),
             funcs: Vec::new(),
             scopes: Vec::new(),
             reserved: None,
@@ -351,7 +364,7 @@ impl<'r> Gen<'r> {
             if Some(v.id) == self.reserved {
                 continue;
             }
-            self.collect_paths(&ph(v.id), &v.ty, k, lanes, &mut out, 0);
+            self.collect_paths(&v.path(), &v.ty, k, lanes, &mut out, 0);
         }
         out
     }
@@ -405,7 +418,7 @@ impl<'r> Gen<'r> {
             if !v.writable {
                 continue;
             }
-            self.collect_writable(&ph(v.id), &v.ty, v.id, &mut out, 0);
+            self.collect_writable(&v.path(), &v.ty, v.id, &mut out, 0);
         }
         out
     }
@@ -755,7 +768,7 @@ impl<'r> Gen<'r> {
                         ok = false;
                         break;
                     }
-                    args.push(ph(self.rng.pick(&vars).id));
+                    args.push(self.rng.pick(&vars).path());
                 }
                 _ => {
                     ok = false;
@@ -889,7 +902,7 @@ impl<'r> Gen<'r> {
                     // callers make sure one exists (see gen_function); a cast of zero is the last resort for structs
                     format!("({})0", self.type_name(ty))
                 } else {
-                    ph(self.rng.pick(&vars).id)
+                    self.rng.pick(&vars).path()
                 }
             }
             Ty::Void => String::new(),
@@ -906,7 +919,7 @@ impl<'r> Gen<'r> {
 
     fn declare_local(&mut self, ty: Ty, writable: bool) -> usize {
         let id = self.ident(IdKind::Local);
-        self.scopes.last_mut().unwrap().push(Var { id, ty, writable });
+        self.scopes.last_mut().unwrap().push(Var { id, ty, writable, prefix: String::new() });
         id
     }
 
@@ -1013,6 +1026,7 @@ impl<'r> Gen<'r> {
                     id,
                     ty: Ty::Num(Kind::Int, 1),
                     writable: false,
+                    prefix: String::new(),
                 });
                 let n = 1 + self.rng.below(4);
                 let inc = match self.rng.below(3) {
@@ -1263,6 +1277,7 @@ impl<'r> Gen<'r> {
                     id: pid,
                     ty: pty.clone(),
                     writable: true,
+                    prefix: String::new(),
                 });
                 params.push(pty);
             }
@@ -1272,6 +1287,7 @@ impl<'r> Gen<'r> {
                     id: *m,
                     ty: t.clone(),
                     writable: true,
+                    prefix: String::new(),
                 })
                 .collect();
             self.current_ret = ret.clone();
@@ -1304,7 +1320,7 @@ impl<'r> Gen<'r> {
         // global initialisers: literals only (constant expressions)
         let init = self.const_initializer(&ty);
         out.push_str(&format!("static {}{} {}{} = {};\n", if is_const { "const " } else { "" }, self.type_name(&ty), ph(id), Self::array_suffix(&ty), init));
-        self.globals.push(Var { id, ty, writable: !is_const });
+        self.globals.push(Var { id, ty, writable: !is_const, prefix: String::new() });
         self.feature(if is_const { "static-const-global" } else { "static-global" });
     }
 
@@ -1402,6 +1418,7 @@ impl<'r> Gen<'r> {
                 id: pid,
                 ty: pty.clone(),
                 writable: true,
+                prefix: String::new(),
             });
             if modifier == 1 {
                 outs.push((pid, pty.clone()));
@@ -1524,17 +1541,58 @@ impl<'r> Gen<'r> {
         }
         let nfuncs = 2 + self.rng.below(self.cfg.max_functions.max(1));
         for i in 0..nfuncs {
-            if self.cfg.rich && self.rng.chance(1, 6) {
-                // a helper inside a namespace
+            if self.cfg.rich && self.rng.chance(1, 5) {
+                // helpers (and sometimes globals, and a nested namespace) inside a namespace: inside they are used unqualified,
+                // outside with the prefix, which is registered once the namespace is closed
                 let ns = self.ident(IdKind::Namespace);
                 out.push_str(&format!("namespace {}\n{{\n", ph(ns)));
-                // inside the namespace the function is called unqualified; outside with the prefix. Register with prefix afterwards.
-                let before = self.funcs.len();
+                let prefix = format!("{}::", ph(ns));
+                let funcs_before = self.funcs.len();
+                let globals_before = self.globals.len();
+                let idents_before = self.idents.len();
+                if self.rng.chance(1, 2) {
+                    for _ in 0..1 + self.rng.below(2) {
+                        self.gen_global(&mut out);
+                    }
+                    self.feature("namespace-global");
+                }
+                if self.rng.chance(1, 3) {
+                    let inner = self.ident(IdKind::Namespace);
+                    out.push_str(&format!("namespace {}\n{{\n", ph(inner)));
+                    let inner_prefix = format!("{}::", ph(inner));
+                    let f0 = self.funcs.len();
+                    let g0 = self.globals.len();
+                    let i0 = self.idents.len();
+                    if self.rng.chance(1, 2) {
+                        self.gen_global(&mut out);
+                    }
+                    self.gen_function(&mut out, false, None, "", 1);
+                    out.push_str("}\n\n");
+                    for f in self.funcs[f0..].iter_mut() {
+                        f.prefix = inner_prefix.clone();
+                    }
+                    for g in self.globals[g0..].iter_mut() {
+                        g.prefix = inner_prefix.clone();
+                    }
+                    for i in i0..self.idents.len() {
+                        if matches!(self.idents[i].kind, IdKind::Global | IdKind::Function) {
+                            self.ns_marks.push((i, inner));
+                        }
+                    }
+                    self.feature("nested-namespace");
+                }
                 self.gen_function(&mut out, false, None, "", 1);
                 out.push_str("}\n\n");
-                let prefix = format!("{}::", ph(ns));
-                for f in self.funcs[before..].iter_mut() {
-                    f.prefix = prefix.clone();
+                for f in self.funcs[funcs_before..].iter_mut() {
+                    f.prefix = format!("{}{}", prefix, f.prefix);
+                }
+                for g in self.globals[globals_before..].iter_mut() {
+                    g.prefix = format!("{}{}", prefix, g.prefix);
+                }
+                for i in idents_before..self.idents.len() {
+                    if matches!(self.idents[i].kind, IdKind::Global | IdKind::Function) && !self.ns_marks.iter().any(|(j, _)| *j == i) {
+                        self.ns_marks.push((i, ns));
+                    }
                 }
                 self.feature("namespace");
                 continue;
@@ -1543,12 +1601,17 @@ impl<'r> Gen<'r> {
             let id = self.gen_function(&mut out, entry, None, "", 0);
             entries.push(id);
         }
+        let mut ns_of = vec![None; self.idents.len()];
+        for (i, ns) in &self.ns_marks {
+            ns_of[*i] = Some(*ns);
+        }
         Program {
             template: out,
             idents: self.idents,
             entries,
             features: self.features,
             multi: self.multi,
+            ns_of,
         }
     }
 }
